@@ -34,7 +34,7 @@ def run(payload):
     eq = DiffusionPDE(0.3)
 
     def fail(kind, **kw):
-        if len(fails) < 8:
+        if sum(1 for f_ in fails if f_["id"] == kind) < 3:  # a few witnesses per kind; one kind never crowds out another
             fails.append({"id": kind, **kw})
 
     for k in range(payload.get("n", 12)):
@@ -49,15 +49,25 @@ def run(payload):
         storage = MemoryStorage()
         init = ScalarField(grid, rng.uniform(0, 1, 5))
         cases += 1
-        res, info = eq.solve(init, t_range=(t0, t0 + T), dt=dt, tracker=[other, rec, storage.tracker(D)], backend=backend, solver="euler", ret_info=True)
+        solver_name = ["euler", "runge-kutta", "adams-bashforth", "implicit", "crank-nicolson"][k % 5]
+        res, info = eq.solve(init, t_range=(t0, t0 + T), dt=dt, tracker=[other, rec, storage.tracker(D)], backend=backend, solver=solver_name, ret_info=True)
         sched = [t0 + j * D for j in range(int(math.floor(T / D + 1e-9)) + 1)]
+        # the time a tracker is told is a genuine simulation time: the state it sees is the state of a run that ends there
+        if len(rec.times) >= 2:
+            t_seen, s_seen = rec.times[-2], rec.states[-2]
+            n_seen = round((t_seen - t0) / dt)
+            if n_seen >= 1:
+                alone = eq.solve(init, t_range=(t0, t0 + n_seen * dt), dt=dt, tracker=None, backend=backend, solver=solver_name)
+                if not np.allclose(alone.data, s_seen, rtol=1e-9, atol=1e-12):
+                    fail("tracker_time_is_not_the_time_of_the_state_it_sees", solver=solver_name, backend=backend, dt=dt, t0=t0, D=D, time_told=t_seen, steps=n_seen,
+                         max_dev=float(np.max(np.abs(alone.data - s_seen))))
         ok = len(rec.times) in (len(sched), len(sched) + 1) and all(abs(a - b) <= dt / 2 + 1e-9 for a, b in zip(rec.times, sched))
         ok = ok and all(b > a for a, b in zip(rec.times, rec.times[1:])) and all(abs((t - t0) / dt - round((t - t0) / dt)) < 1e-6 for t in rec.times + other.times)
         ok = ok and list(storage.times) == rec.times and rec.finalized == 1 and other.finalized == 1
         if len(rec.times) == len(sched) + 1:
             ok = ok and abs(rec.times[-1] - (t0 + T)) < 1e-9
         if not ok:
-            fail("schedule", dt=dt, N=N, t0=t0, D=D, backend=backend, times=rec.times, scheduled=sched, storage=list(storage.times))
+            fail("schedule", solver=solver_name, dt=dt, N=N, t0=t0, D=D, backend=backend, times=rec.times, scheduled=sched, storage=list(storage.times))
         # stopping: the stopper sits before / after a recorder due at the same times
         stop_at = t0 + float(rng.integers(0, N + 1)) * dt
         for exc in (StopIteration, FinishedSimulation):
@@ -102,6 +112,25 @@ def run(payload):
             ok = ok and abs(rec.times[-1] - (t0 + T)) < 1e-9
         if not ok:
             fail("adaptive_schedule", backend=backend, solver=solver, t0=t0, T=T, D=D, times=rec.times, scheduled=sched, t_final=tf)
+    # ---- adaptive steppers with trackers of DIFFERENT intervals (the adaptive step grows far beyond the gaps between
+    #      their scheduled times): every tracker is still served at each of its own scheduled times
+    for solver in ("euler", "runge-kutta"):
+        for backend in ("numpy", "numba"):
+            Da, Db = [(1.0, 0.7), (0.5, 0.8), (1.0, 0.45)][int(rng.integers(0, 3))]
+            T = 10.0
+            ra, rb = Rec(Da), Rec(Db)
+            init = ScalarField(grid, 1 + 1e-3 * rng.uniform(0, 1, 5))
+            cases += 1
+            try:
+                eq.solve(init, t_range=T, dt=1e-3, tracker=[ra, rb], backend=backend, solver=solver, adaptive=True, tolerance=1e-3)
+            except Exception as e:
+                fail("adaptive_error", backend=backend, solver=solver, error=f"{type(e).__name__}: {e}")
+                continue
+            for r, D in ((ra, Da), (rb, Db)):
+                sched = [i * D for i in range(int(np.floor(T / D + 1e-9)) + 1)]
+                got = r.times[:len(sched)]
+                if len(r.times) not in (len(sched), len(sched) + 1) or any(abs(a - b) > 1e-6 for a, b in zip(got, sched)):
+                    fail("adaptive_tracker_not_served_at_its_scheduled_times", backend=backend, solver=solver, interval=D, other_interval=Da if D == Db else Db, times=r.times, scheduled=sched)
     return {"ok": True, "cases": cases, "failures": fails}
 
 
